@@ -378,7 +378,10 @@ fn noop_cx_poll<F: Future>(f: Pin<&mut F>) -> Poll<F::Output> {
 // C15 handshake and close gating
 // ---------------------------------------------------------------------------------------------
 
-const C15_ALPHABET: [&str; 7] = ["HEL", "OPNi", "OPNr", "MSGg", "MSGc", "MSGr", "CLO"];
+/// The frame kinds. OPNi / OPNr are acceptable Issue / Renew requests; OPNm and OPNv are Issue requests
+/// that a server turns down with a fault and without issuing anything (OPNm: security mode Invalid, the
+/// last thing `open_secure_channel` looks at; OPNv: a protocol version other than the HEL's, the first).
+const C15_ALPHABET: [&str; 9] = ["HEL", "OPNi", "OPNr", "OPNm", "OPNv", "MSGg", "MSGc", "MSGr", "CLO"];
 
 #[derive(Clone, Copy, Debug, PartialEq, Eq)]
 enum RefState {
@@ -399,19 +402,64 @@ impl RefState {
     }
 }
 
-/// What came back on the socket for one frame
+/// What was observed for one frame: what came back on the socket, and (for frames sent in lock step)
+/// by how much the server's cumulated session count grew while the frame was being served
 #[derive(Clone, Debug, Default)]
 struct FrameObs {
     /// response classes, e.g. "ACK", "OPN:OpenSecureChannelResponse", "MSG:ServiceFault", "ERR"
     responses: Vec<String>,
     eof: bool,
     silent: bool,
+    /// sessions the server created while this frame was the only one outstanding (lock-step frames)
+    sessions: u32,
+}
+
+/// One run of a frame sequence: the first `lock` frames in lock step, the rest in one write
+#[derive(Clone, Debug, Default)]
+struct C15Run {
+    obs: Vec<FrameObs>,
+    /// sessions the server created between the burst being written and the connection task ending
+    burst_sessions: u32,
+    /// the connection task was seen to end (otherwise the session counts are not attributable)
+    finished: bool,
+    /// how often the silence timeout ran out
+    timeouts: u64,
+}
+
+/// Server-side observation point: the cumulated session count of the server's diagnostics, which grows
+/// by one for every CreateSession the server carried out, whether or not a response was ever written
+struct SessionProbe {
+    metrics: opcua::server::metrics::ServerMetrics,
+}
+
+impl SessionProbe {
+    fn new() -> SessionProbe {
+        SessionProbe { metrics: opcua::server::metrics::ServerMetrics::new() }
+    }
+    fn created(&mut self, server: &Server) -> u32 {
+        let state = server.server_state();
+        let state = state.read();
+        self.metrics.update_from_server_state(&state);
+        self.metrics.diagnostics.server_diagnostics_summary().cumulated_session_count
+    }
 }
 
 struct C15Peer {
     sc: SecureChannel,
     seq: u32,
     req: u32,
+}
+
+fn open_secure_channel_with(handle: u32, renew: bool, mode: MessageSecurityMode, version: u32) -> SupportedMessage {
+    OpenSecureChannelRequest {
+        request_header: req_header(handle),
+        client_protocol_version: version,
+        request_type: if renew { SecurityTokenRequestType::Renew } else { SecurityTokenRequestType::Issue },
+        security_mode: mode,
+        client_nonce: ByteString::from(vec![0u8; 1]),
+        requested_lifetime: 600_000,
+    }
+    .into()
 }
 
 impl C15Peer {
@@ -427,6 +475,8 @@ impl C15Peer {
         let msg = match kind {
             "OPNi" => open_secure_channel(handle, false),
             "OPNr" => open_secure_channel(handle, true),
+            "OPNm" => open_secure_channel_with(handle, false, MessageSecurityMode::Invalid, 0),
+            "OPNv" => open_secure_channel_with(handle, false, MessageSecurityMode::None, 1),
             "MSGg" => get_endpoints(handle),
             "MSGc" => create_session(handle),
             "MSGr" => read_request(handle, 1, 0),
@@ -441,22 +491,30 @@ impl C15Peer {
 fn frame_class(kind: &str) -> &'static str {
     match kind {
         "HEL" => "HEL",
-        "OPNi" | "OPNr" => "OPN",
+        "OPNi" | "OPNr" | "OPNm" | "OPNv" => "OPN",
         "CLO" => "CLO",
         _ => "MSG",
     }
 }
 
 /// Runs one frame sequence against a fresh connection served by the real `TcpTransport::run`
-/// loop over a loopback socket, in lock step: after each frame wait for its answer or for EOF.
+/// loop over a loopback socket. The first `lock` frames go out in lock step (after each frame wait
+/// for its answer or for EOF); the remaining ones, if any, are written back to back in ONE write, so
+/// that the server's reader finds them in its buffer together, and are then waited for together.
+/// The server's cumulated session count is sampled after every lock-step frame and after the
+/// connection task has ended.
 async fn c15_run_socket(
     server: &Server,
     listener: &tokio::net::TcpListener,
     env: &Env,
     seq: &[&str],
+    lock: usize,
     silence_ms: u64,
-) -> Result<Vec<FrameObs>, String> {
+) -> Result<C15Run, String> {
     use tokio::io::{AsyncReadExt, AsyncWriteExt};
+    let lock = lock.min(seq.len());
+    let mut probe = SessionProbe::new();
+    let mut sessions_seen = probe.created(server);
     let addr = listener.local_addr().map_err(|e| e.to_string())?;
     let (client, accepted) = tokio::join!(tokio::net::TcpStream::connect(addr), listener.accept());
     let mut client = client.map_err(|e| format!("connect: {}", e))?;
@@ -473,35 +531,53 @@ async fn c15_run_socket(
     let mut eof = false;
     // request id -> index of the frame that carried it
     let mut by_req: BTreeMap<u32, usize> = BTreeMap::new();
+    // HEL frames sent and not yet acknowledged, oldest first (answers arrive in order)
+    let mut hel_unacked: std::collections::VecDeque<usize> = std::collections::VecDeque::new();
     let mut last_hel: Option<usize> = None;
+    let mut burst_sessions = 0u32;
+    let mut timeouts = 0u64;
 
-    for (idx, kind) in seq.iter().enumerate() {
-        let (bytes, req) = peer.frame(kind);
-        obs.push(FrameObs::default());
-        if *kind == "HEL" {
-            last_hel = Some(idx);
-        } else {
-            by_req.insert(req, idx);
+    // one phase per lock-step frame, then one phase for the whole burst
+    let mut phases: Vec<(usize, usize)> = (0..lock).map(|i| (i, i + 1)).collect();
+    if lock < seq.len() {
+        phases.push((lock, seq.len()));
+    }
+    for (a, b) in phases {
+        let is_burst = a >= lock;
+        let last = b - 1;
+        let mut bytes: Vec<u8> = Vec::new();
+        for idx in a..b {
+            let (frame, req) = peer.frame(seq[idx]);
+            bytes.extend_from_slice(&frame);
+            obs.push(FrameObs::default());
+            if seq[idx] == "HEL" {
+                last_hel = Some(idx);
+                hel_unacked.push_back(idx);
+            } else {
+                by_req.insert(req, idx);
+            }
         }
         if eof {
-            obs[idx].eof = true;
+            for o in &mut obs[a..b] {
+                o.eof = true;
+            }
             continue;
         }
         if client.write_all(&bytes).await.is_err() {
             // the server is gone; reading will tell
         }
         let _ = client.flush().await;
-        // wait for this frame's answer or EOF
-        let mut answered = false;
-        while !answered && !eof {
+        // wait for the answers of this phase's frames or for EOF
+        let mut answered: BTreeSet<usize> = BTreeSet::new();
+        while answered.len() < b - a && !eof {
             // decode whatever is buffered
             loop {
                 match codec.decode(&mut inbuf) {
                     Ok(Some(m)) => {
                         let (target, class) = match m {
-                            Message::Acknowledge(_) => (last_hel.unwrap_or(idx), "ACK".to_string()),
-                            Message::Error(_) => (idx, "ERR".to_string()),
-                            Message::Hello(_) => (idx, "HEL?".to_string()),
+                            Message::Acknowledge(_) => (hel_unacked.pop_front().or(last_hel).unwrap_or(last), "ACK".to_string()),
+                            Message::Error(_) => (last, "ERR".to_string()),
+                            Message::Hello(_) => (last, "HEL?".to_string()),
                             Message::Chunk(c) => match c.chunk_info(&peer.sc) {
                                 Ok(info) => {
                                     let t = match info.message_header.message_type {
@@ -509,7 +585,7 @@ async fn c15_run_socket(
                                         MessageChunkType::OpenSecureChannel => "OPN",
                                         MessageChunkType::CloseSecureChannel => "CLO",
                                     };
-                                    let target = by_req.get(&info.sequence_header.request_id).cloned().unwrap_or(idx);
+                                    let target = by_req.get(&info.sequence_header.request_id).cloned().unwrap_or(last);
                                     let name = match Chunker::decode(&[c], &peer.sc, None) {
                                         Ok(m) => {
                                             if let SupportedMessage::OpenSecureChannelResponse(r) = &m {
@@ -523,11 +599,11 @@ async fn c15_run_socket(
                                     };
                                     (target, format!("{}:{}", t, name))
                                 }
-                                Err(e) => (idx, format!("chunk?({})", e)),
+                                Err(e) => (last, format!("chunk?({})", e)),
                             },
                         };
-                        if target == idx && class != "ERR" {
-                            answered = true;
+                        if target >= a && target < b && class != "ERR" {
+                            answered.insert(target);
                         }
                         obs[target].responses.push(class);
                     }
@@ -535,7 +611,7 @@ async fn c15_run_socket(
                     Err(e) => return Err(format!("peer cannot decode server bytes: {}", e)),
                 }
             }
-            if answered {
+            if answered.len() >= b - a {
                 break;
             }
             let mut tmp = [0u8; 16384];
@@ -544,15 +620,26 @@ async fn c15_run_socket(
             // a verdict: answers are attributed by request id whenever they arrive.
             match tokio::time::timeout(std::time::Duration::from_millis(silence_ms), client.read(&mut tmp)).await {
                 Err(_) => {
-                    obs[idx].silent = true;
+                    timeouts += 1;
+                    for idx in a..b {
+                        if !answered.contains(&idx) {
+                            obs[idx].silent = true;
+                        }
+                    }
                     break;
                 }
                 Ok(Ok(0)) | Ok(Err(_)) => {
                     eof = true;
-                    obs[idx].eof = true;
+                    obs[last].eof = true;
                 }
                 Ok(Ok(n)) => inbuf.extend_from_slice(&tmp[..n]),
             }
+        }
+        if !is_burst {
+            // lock step: this frame is the only thing the server had to work on since the last sample
+            let now = probe.created(server);
+            obs[last].sessions = now.saturating_sub(sessions_seen);
+            sessions_seen = now;
         }
     }
     if !eof && obs.iter().any(|o| o.silent) {
@@ -579,25 +666,58 @@ async fn c15_run_socket(
         }
     }
     drop(client);
-    // let the connection task run to its end so that its sessions are cleared before the next case
-    for _ in 0..10_000 {
+    // let the connection task run to its end: everything the server was going to do with what it
+    // received has been done then, and its sessions are cleared before the next case
+    let mut finished = false;
+    for i in 0..50_000 {
         if transport.read().is_finished() {
+            finished = true;
             break;
         }
-        tokio::time::sleep(std::time::Duration::from_micros(200)).await;
+        if i < 64 {
+            tokio::task::yield_now().await;
+        } else {
+            tokio::time::sleep(std::time::Duration::from_micros(200)).await;
+        }
     }
-    Ok(obs)
+    // what the server created after the last lock-step sample belongs to the burst, or, without a
+    // burst, to the last frame
+    let now = probe.created(server);
+    let rest = now.saturating_sub(sessions_seen);
+    if lock < seq.len() {
+        burst_sessions = rest;
+    } else if let Some(o) = obs.last_mut() {
+        o.sessions += rest;
+    }
+    Ok(C15Run { obs, burst_sessions, finished, timeouts })
 }
 
 /// The four-state reference automaton. Returns the violations (signature, detail) of one observed
 /// run and the state path.
-fn c15_oracle(seq: &[&str], obs: &[FrameObs]) -> (Vec<(String, String)>, String) {
+///
+/// For frames sent in lock step the state follows what was observed (ACK, OpenSecureChannelResponse,
+/// EOF). Inside a burst the answers that would confirm a transition may never be written (the server
+/// may tear the connection down with answers still queued), so the walk is permissive there: a HEL in
+/// `new` is taken as acknowledged and an OPN in `hello-done` whose answer was not seen is taken as
+/// having opened the channel. A CLO closes in either mode. What stays forbidden in a burst is exactly
+/// what no permitted behaviour can produce: a request carried out before any HEL / OPN of the
+/// sequence, or after a CLO.
+fn c15_oracle(seq: &[&str], lock: usize, run: &C15Run) -> (Vec<(String, String)>, String) {
+    let obs = &run.obs;
     let mut st = RefState::New;
     let mut path = String::from("N");
     let mut viol = Vec::new();
+    // an OPN was turned down in hello-done (part of the history shape, named in the signature)
+    let mut opn_rejected = false;
+    let mut burst_permitted = 0u32;
+    let mut burst_forbidden: BTreeSet<String> = BTreeSet::new();
+    let mut burst_after_rejected = false;
+    let shape = |obs: &[FrameObs]| obs.iter().map(|o| o.responses.join("+")).collect::<Vec<_>>();
     for (i, kind) in seq.iter().enumerate() {
         let o = &obs[i];
         let fc = frame_class(kind);
+        let in_burst = i >= lock;
+        let after = if st == RefState::HelloDone && opn_rejected { "|after=rejected-OPN" } else { "" };
         for r in &o.responses {
             let rclass = r.split(':').next().unwrap_or("?");
             if rclass == "ERR" {
@@ -616,17 +736,41 @@ fn c15_oracle(seq: &[&str], obs: &[FrameObs]) -> (Vec<(String, String)>, String)
             };
             if !permitted {
                 viol.push((
-                    format!("forbidden-response|state={}|frame={}|response={}", st.name(), fc, rclass),
+                    format!("forbidden-response|state={}|frame={}|response={}{}", st.name(), fc, rclass, after),
                     format!(
-                        "frame #{} ({}) was answered with {} while the connection was in reference state {}; sequence {:?}, observations {:?}",
-                        i, kind, r, st.name(), seq, obs.iter().map(|o| o.responses.join("+")).collect::<Vec<_>>()
+                        "frame #{} ({}) was answered with {} while the connection was in reference state {}; sequence {:?} (first {} in lock step), observations {:?}",
+                        i, kind, r, st.name(), seq, lock, shape(obs)
+                    ),
+                ));
+            }
+        }
+        // server-side observation: a session can only come from a CreateSession on an open channel
+        if *kind == "MSGc" && st == RefState::ChannelOpen {
+            if in_burst {
+                burst_permitted += 1;
+            }
+        } else {
+            if in_burst && *kind == "MSGc" {
+                burst_forbidden.insert(st.name().to_string());
+                burst_after_rejected |= !after.is_empty();
+            }
+            if !in_burst && o.sessions > 0 {
+                viol.push((
+                    format!("processed-request|state={}|frame={}|arrival=lock-step|observed=session-created{}", st.name(), fc, after),
+                    format!(
+                        "the server created {} session(s) while serving frame #{} ({}) in reference state {}; sequence {:?}, observations {:?}",
+                        o.sessions, i, kind, st.name(), seq, shape(obs)
                     ),
                 ));
             }
         }
         // transition
-        let acked = o.responses.iter().any(|r| r == "ACK");
-        let opened = o.responses.iter().any(|r| r == "OPN:OpenSecureChannelResponse");
+        let acked = o.responses.iter().any(|r| r == "ACK") || in_burst;
+        let opn_answer_seen = o.responses.iter().any(|r| r.starts_with("OPN:") || r.starts_with("MSG:"));
+        let opened = o.responses.iter().any(|r| r == "OPN:OpenSecureChannelResponse") || (in_burst && !opn_answer_seen);
+        if st == RefState::HelloDone && fc == "OPN" && !opened {
+            opn_rejected = true;
+        }
         st = match (st, fc) {
             (RefState::Closed, _) => RefState::Closed,
             (_, "CLO") => RefState::Closed,
@@ -644,6 +788,21 @@ fn c15_oracle(seq: &[&str], obs: &[FrameObs]) -> (Vec<(String, String)>, String)
             RefState::ChannelOpen => 'O',
             RefState::Closed => 'X',
         });
+    }
+    if lock < seq.len() && run.burst_sessions > burst_permitted {
+        let states = if burst_forbidden.is_empty() { "no-CreateSession".to_string() } else { burst_forbidden.iter().cloned().collect::<Vec<_>>().join("+") };
+        viol.push((
+            format!(
+                "processed-request|state={}|frame=MSG|arrival=burst|observed=session-created{}",
+                states,
+                if burst_after_rejected { "|after=rejected-OPN" } else { "" }
+            ),
+            format!(
+                "the server created {} session(s) out of the frames {:?} written back to back after {:?}, but only {} CreateSession of that burst \
+                 met an open channel; the others met reference state(s) {}; observations {:?}",
+                run.burst_sessions, &seq[lock..], &seq[..lock], burst_permitted, states, shape(obs)
+            ),
+        ));
     }
     (viol, path)
 }
@@ -664,33 +823,41 @@ impl Silence {
     }
 }
 
+/// Runs and judges one case: `seq` with its first `lock` frames in lock step and the rest as one burst
+/// (`lock == seq.len()`: all in lock step). Returns whether the connection was still open at the end.
 fn c15_eval(
     rt: &tokio::runtime::Runtime,
     server: &Server,
     listener: &tokio::net::TcpListener,
     env: &Env,
     seq: &[&str],
+    lock: usize,
     record: bool,
     silence: &mut Silence,
     rep: &mut Report,
 ) -> Option<bool> {
-    let case = json!({"seq": seq, "class": seq.join(" ")});
+    let lock = lock.min(seq.len());
+    let burst = lock < seq.len();
+    let case = if burst {
+        json!({"seq": seq, "lock": lock, "class": format!("{} | {}", seq[..lock].join(" "), seq[lock..].join(" "))})
+    } else {
+        json!({"seq": seq, "class": seq.join(" ")})
+    };
     rep.begin_case(&case);
     let silence_ms = silence.timeout_ms();
-    let r = catch(|| rt.block_on(c15_run_socket(server, listener, env, seq, silence_ms)));
-    if let Ok(Ok(o)) = &r {
-        let n = o.iter().filter(|o| o.silent).count() as u64;
-        silence.events += n;
-        silence.budget_ms -= (n * silence_ms) as i64;
+    let r = catch(|| rt.block_on(c15_run_socket(server, listener, env, seq, lock, silence_ms)));
+    if let Ok(Ok(run)) = &r {
+        silence.events += run.obs.iter().filter(|o| o.silent).count() as u64;
+        silence.budget_ms -= (run.timeouts * silence_ms) as i64;
     }
     if !record {
         // a prefix every shard needs in order to know whether it is alive; reported by shard 0 only
         return match r {
-            Ok(Ok(o)) => Some(o.last().map(|o| !o.eof).unwrap_or(true)),
+            Ok(Ok(run)) => Some(run.obs.last().map(|o| !o.eof).unwrap_or(true)),
             _ => None,
         };
     }
-    let obs = match r {
+    let run = match r {
         Err(p) => {
             rep.case(&format!("panic {}", seq.join(" ")));
             rep.violation(p.signature(), format!("panic while serving {:?}: {} at {}:{}", seq, p.msg, p.file, p.line), case);
@@ -705,7 +872,12 @@ fn c15_eval(
     if let Some(p) = take_uncaught_panic() {
         rep.violation(p.signature(), format!("connection task panicked while serving {:?}: {} at {}:{}", seq, p.msg, p.file, p.line), case.clone());
     }
-    let (viol, path) = c15_oracle(seq, &obs);
+    if !run.finished {
+        rep.inconclusive(format!("the connection task serving {:?} did not end after the peer hung up; session counts are not attributable", seq));
+        return None;
+    }
+    let obs = &run.obs;
+    let (viol, path) = c15_oracle(seq, lock, &run);
     let shape: Vec<String> = obs
         .iter()
         .map(|o| {
@@ -716,15 +888,34 @@ fn c15_eval(
             if o.silent {
                 r.push("silent");
             }
+            if o.sessions > 0 {
+                r.push("session");
+            }
             r.join("+")
         })
         .collect();
-    rep.case(&format!("{} | {} | {}", seq.iter().map(|k| frame_class(k)).collect::<Vec<_>>().join(","), path, shape.join(",")));
-    rep.sample(json!({"seq": seq, "reference_path": path, "observed": obs.iter().map(|o| json!({"responses": o.responses, "eof": o.eof})).collect::<Vec<_>>()}));
+    let classes = seq.iter().map(|k| frame_class(k)).collect::<Vec<_>>();
+    if burst {
+        rep.case(&format!(
+            "burst {} / {} | {} | {} | sessions={}",
+            classes[..lock].join(","), classes[lock..].join(","), path, shape.join(","), run.burst_sessions
+        ));
+    } else {
+        rep.case(&format!("{} | {} | {}", classes.join(","), path, shape.join(",")));
+    }
+    rep.sample(json!({"seq": seq, "lock_step_frames": lock, "reference_path": path, "burst_sessions_created": run.burst_sessions,
+        "observed": obs.iter().map(|o| json!({"responses": o.responses, "eof": o.eof, "sessions_created": o.sessions})).collect::<Vec<_>>()}));
     rep.count("frames_sent", seq.len() as u64);
     rep.count("responses_observed", obs.iter().map(|o| o.responses.len() as u64).sum());
     rep.count("connections_closed_by_server", obs.iter().any(|o| o.eof) as u64);
     rep.count("frames_neither_answered_nor_closed", obs.iter().filter(|o| o.silent).count() as u64);
+    rep.count("sessions_created_by_the_server", obs.iter().map(|o| o.sessions as u64).sum::<u64>() + run.burst_sessions as u64);
+    if burst {
+        rep.count("burst_cases", 1);
+        rep.count("frames_sent_in_bursts", (seq.len() - lock) as u64);
+    } else {
+        rep.count("lock_step_cases", 1);
+    }
     for (sig, detail) in viol {
         rep.violation(sig, detail, case.clone());
     }
@@ -732,7 +923,9 @@ fn c15_eval(
 }
 
 pub fn c15(args: &Args, rep: &mut Report) {
-    let depth = if args.thorough() { 6 } else { 5 };
+    let depth: usize = if args.thorough() { 6 } else { 5 };
+    // frames written back to back after a lock-step prefix
+    let max_burst: usize = if args.thorough() { 4 } else { 3 };
     let mut env = Env::new("c15");
     let lim = Limits { max_message_size: 327_675, max_chunk_count: 5, send_buffer_size: 65536, receive_buffer_size: 65536 };
     env.server(&lim);
@@ -753,21 +946,66 @@ pub fn c15(args: &Args, rep: &mut Report) {
         };
         let seq: Vec<String> = case["seq"].as_array().map(|a| a.iter().filter_map(|x| x.as_str().map(|s| s.to_string())).collect()).unwrap_or_default();
         let seq: Vec<&str> = seq.iter().map(|s| C15_ALPHABET.iter().find(|a| **a == s.as_str()).cloned().unwrap_or("HEL")).collect();
-        c15_eval(&rt, server, &listener, &env, &seq, true, &mut Silence { budget_ms: 20_000, events: 0 }, rep);
+        let lock = if case.get("lock").is_some() { u(&case, "lock") as usize } else { seq.len() };
+        c15_eval(&rt, server, &listener, &env, &seq, lock, true, &mut Silence { budget_ms: 20_000, events: 0 }, rep);
         return;
     }
 
-    // Depth-first over the sequence tree. A node is extended only while the server keeps the
-    // connection open: once the peer has seen EOF nothing can be answered to any extension, so
+    // Depth-first over the sequence tree, in lock step. A node is extended only while the server keeps
+    // the connection open: once the peer has seen EOF nothing can be answered to any extension, so
     // all extensions of a closed prefix are decided by that prefix (counted, not re-run).
-    // Sharding: by the index of the second frame (the first level runs on every shard, 7 connections).
+    // Every prefix that is still open (and the empty one) is also the lock-step part of burst cases:
+    // each sequence of 2..max_burst further frames is written back to back in one write after it.
+    // Sharding: sequences of up to two frames are run by every shard (18 connections; recorded by shard 0)
+    // so that each shard knows which prefixes are open; longer ones belong to the shard given by their
+    // second and third frame, with their bursts. The bursts of the shared prefixes are dealt out in turn.
+    let nl = C15_ALPHABET.len();
+    let pos = |k: &str| C15_ALPHABET.iter().position(|a| *a == k).unwrap_or(0);
+    let owner = |seq: &[&str]| -> Option<usize> {
+        if seq.len() < 3 {
+            None
+        } else {
+            Some((pos(seq[1]) * nl + pos(seq[2])) % args.shards)
+        }
+    };
     let mut pruned: u64 = 0;
     let mut silence = Silence { budget_ms: 20_000, events: 0 };
     let started = std::time::Instant::now();
     let deadline_s = if args.thorough() { 900 } else { 150 };
+    let mut out_of_time = false;
+    let mut shared_bursts: usize = 0;
+    // the bursts that follow one open lock-step prefix
+    let mut run_bursts = |prefix: &[&str], silence: &mut Silence, rep: &mut Report, out_of_time: &mut bool| {
+        let shared = owner(prefix).is_none();
+        for m in 2..=max_burst.min(depth.saturating_sub(prefix.len())) {
+            let total = nl.pow(m as u32);
+            for code in 0..total {
+                if shared {
+                    shared_bursts += 1;
+                    if shared_bursts % args.shards != args.shard {
+                        continue;
+                    }
+                }
+                if started.elapsed().as_secs() > deadline_s {
+                    *out_of_time = true;
+                    return;
+                }
+                let mut seq: Vec<&str> = prefix.to_vec();
+                let mut c = code;
+                let mut suffix = vec![""; m];
+                for slot in suffix.iter_mut().rev() {
+                    *slot = C15_ALPHABET[c % nl];
+                    c /= nl;
+                }
+                seq.extend_from_slice(&suffix);
+                c15_eval(&rt, server, &listener, &env, &seq, prefix.len(), true, silence, rep);
+            }
+        }
+    };
+    run_bursts(&[], &mut silence, rep, &mut out_of_time);
     let mut stack: Vec<Vec<&str>> = C15_ALPHABET.iter().rev().map(|k| vec![*k]).collect();
     while let Some(seq) = stack.pop() {
-        if started.elapsed().as_secs() > deadline_s {
+        if out_of_time || started.elapsed().as_secs() > deadline_s {
             // only reachable when the server ignores frames instead of answering or closing
             rep.inconclusive(format!(
                 "enumeration stopped after {} s with {} sequences still queued: the server left {} frames without answer or close",
@@ -775,14 +1013,16 @@ pub fn c15(args: &Args, rep: &mut Report) {
             ));
             break;
         }
-        let mine = seq.len() < 2 || (C15_ALPHABET.iter().position(|k| *k == seq[1]).unwrap_or(0) % args.shards) == args.shard;
-        if !mine {
+        let own = owner(&seq);
+        if own.map(|o| o != args.shard).unwrap_or(false) {
             continue;
         }
-        let alive = c15_eval(&rt, server, &listener, &env, &seq, seq.len() >= 2 || args.shard == 0, &mut silence, rep);
+        let record = own.is_some() || args.shard == 0;
+        let alive = c15_eval(&rt, server, &listener, &env, &seq, seq.len(), record, &mut silence, rep);
         let remaining = depth - seq.len();
         match alive {
             Some(true) if remaining > 0 => {
+                run_bursts(&seq, &mut silence, rep, &mut out_of_time);
                 for k in C15_ALPHABET.iter().rev() {
                     let mut n = seq.clone();
                     n.push(*k);
@@ -790,15 +1030,15 @@ pub fn c15(args: &Args, rep: &mut Report) {
                 }
             }
             Some(false) => {
-                // 7 + 7^2 + ... + 7^remaining extensions decided by this closed prefix
+                // nl + nl^2 + ... + nl^remaining lock-step extensions decided by this closed prefix
                 let mut n: u64 = 0;
                 let mut p: u64 = 1;
                 for _ in 0..remaining {
-                    p *= 7;
+                    p *= nl as u64;
                     n += p;
                 }
-                // a length-1 prefix is evaluated by every shard; attribute its subtree to shard 0 only
-                if seq.len() >= 2 || args.shard == 0 {
+                // a shared prefix is evaluated by every shard; attribute its subtree to shard 0 only
+                if record {
                     pruned += n;
                 }
             }
@@ -815,6 +1055,7 @@ pub fn c15(args: &Args, rep: &mut Report) {
     rep.count("sequences_decided_by_a_closed_prefix", pruned);
     if args.shard == 0 {
         rep.count("max_sequence_length", depth as u64);
+        rep.count("max_burst_length", max_burst as u64);
     }
     drop(listener);
     drop(rt);
@@ -1790,11 +2031,15 @@ struct SendRun {
 /// Drives a SendBuffer exactly like the client's transport poll loop does: encode the next chunk
 /// when nothing is readable, write to the socket while something is, otherwise take the next
 /// outgoing message. A poll that returns Pending is dropped (the select! in the real loop cancels it).
+/// With `stop_at_refusal` the history ends at the first refused write, as the client's poll loop does
+/// (it closes the transport); without it the remaining messages are still written to the same buffer,
+/// which is what any other user of `SendBuffer` that survives a refused request does.
 fn drive_send_buffer(
     sb: &mut SendBuffer,
     sc: &SecureChannel,
     msgs: Vec<(u32, SupportedMessage)>,
     script: Vec<WriteStep>,
+    stop_at_refusal: bool,
 ) -> SendRun {
     let mut sink = ScriptSink::new(script);
     let mut queue: std::collections::VecDeque<(u32, SupportedMessage)> = msgs.into();
@@ -1828,7 +2073,7 @@ fn drive_send_buffer(
             let r = sb.write(req, msg, sc);
             let refused = r.is_err();
             writes.push(r);
-            if refused {
+            if refused && stop_at_refusal {
                 // the client's poll loop closes the transport when a write is refused
                 queue.clear();
             }
@@ -1901,7 +2146,7 @@ fn c11_sendbuf_case(case: &Value, env: &Env, rep: &mut Report) {
         let (wire, accepted, chunk_counts) = expected_wire(&sc, &msgs, sbs, mms, mcc);
         let script = write_script(&script_kind, param, wire.len(), &mut rng);
         let mut sb = SendBuffer::new(sbs, mms, mcc);
-        let run = drive_send_buffer(&mut sb, &sc, msgs.clone(), script);
+        let run = drive_send_buffer(&mut sb, &sc, msgs.clone(), script, true);
         // decode back what the sink got, with the receiving end of the channel
         let mut decoded: Vec<Vec<u8>> = Vec::new();
         let mut decode_err = None;
@@ -2259,14 +2504,24 @@ fn parse_emitted(wire: &[u8], rx: &mut SecureChannel) -> Result<Vec<(u32, u32, M
 
 /// Checks the emitted chunks of one sender history. `accepted_ids` are the request ids of the
 /// messages the sender accepted, in order.
-fn c12_sender_oracle(who: &str, emitted: &[(u32, u32, MessageIsFinalType, MessageChunkType)], accepted_ids: &[u32]) -> Option<(String, String)> {
-    for w in emitted.windows(2) {
+/// For a numbering flaw the third member is the index (in `emitted`) of the chunk whose number does
+/// not follow its predecessor's.
+fn c12_sender_oracle_at(
+    who: &str,
+    emitted: &[(u32, u32, MessageIsFinalType, MessageChunkType)],
+    accepted_ids: &[u32],
+) -> Option<(String, String, Option<usize>)> {
+    for (i, w) in emitted.windows(2).enumerate() {
         let (a, b) = (w[0].0, w[1].0);
         if b != a.wrapping_add(1) || b == 0 {
             let kind = if b == a { "sequence-number-repeated" } else if b < a { "sequence-number-decreased" } else { "sequence-number-gap" };
-            return Some((format!("{}|{}", who, kind), format!("chunk sequence numbers {} then {}", a, b)));
+            return Some((format!("{}|{}", who, kind), format!("chunk sequence numbers {} then {}", a, b), Some(i + 1)));
         }
     }
+    c12_sender_oracle_rest(who, emitted, accepted_ids).map(|(s, d)| (s, d, None))
+}
+
+fn c12_sender_oracle_rest(who: &str, emitted: &[(u32, u32, MessageIsFinalType, MessageChunkType)], accepted_ids: &[u32]) -> Option<(String, String)> {
     // group into messages
     let mut groups: Vec<Vec<&(u32, u32, MessageIsFinalType, MessageChunkType)>> = vec![vec![]];
     for e in emitted {
@@ -2294,6 +2549,46 @@ fn c12_sender_oracle(who: &str, emitted: &[(u32, u32, MessageIsFinalType, Messag
     None
 }
 
+/// Where the refused writes of a sender history lie: "0" none, "last" only at the end of the history,
+/// "then-accepted" at least one refused write is followed by an accepted one
+fn refusal_shape(results: &[bool]) -> &'static str {
+    match results.iter().position(|ok| !ok) {
+        None => "0",
+        Some(p) if results[p..].iter().any(|ok| *ok) => "then-accepted",
+        Some(_) => "last",
+    }
+}
+
+/// A numbering flaw at the first chunk of a message whose write directly followed refused writes is
+/// named as such, with the status of those refusals (the history shape is part of the signature).
+/// `results[i]` is None for an accepted write and the status name of a refused one.
+fn qualify_after_refusal(
+    sig: String,
+    at: Option<usize>,
+    emitted: &[(u32, u32, MessageIsFinalType, MessageChunkType)],
+    results: &[Option<String>],
+) -> String {
+    let Some(at) = at else { return sig };
+    // a flaw inside a message has nothing to do with what was written before the message
+    if at == 0 || emitted[at - 1].2 == MessageIsFinalType::Intermediate {
+        return sig;
+    }
+    // ordinal (among the accepted writes) of the message that chunk `at` starts
+    let ordinal = emitted[..at].iter().filter(|e| e.2 != MessageIsFinalType::Intermediate).count();
+    let Some(pos) = results.iter().enumerate().filter(|(_, r)| r.is_none()).map(|(i, _)| i).nth(ordinal) else { return sig };
+    let mut statuses: BTreeSet<String> = BTreeSet::new();
+    let mut i = pos;
+    while i > 0 && results[i - 1].is_some() {
+        statuses.insert(results[i - 1].clone().unwrap_or_default());
+        i -= 1;
+    }
+    if statuses.is_empty() {
+        sig
+    } else {
+        format!("{}|after-refused-write={}", sig, statuses.into_iter().collect::<Vec<_>>().join("+"))
+    }
+}
+
 fn c12_send_client_case(case: &Value, env: &Env, rt: &tokio::runtime::Runtime, rep: &mut Report) {
     let security = s(case, "security").to_string();
     let sbs = u(case, "send_buffer_size") as usize;
@@ -2301,6 +2596,8 @@ fn c12_send_client_case(case: &Value, env: &Env, rt: &tokio::runtime::Runtime, r
     let mcc = u(case, "max_chunk_count") as usize;
     let sizes: Vec<usize> = case["msgs"].as_array().map(|a| a.iter().filter_map(|x| x.as_u64().map(|x| x as usize)).collect()).unwrap_or_default();
     let script_kind = s(case, "script").to_string();
+    // "continue": the history goes on after a refused write (same buffer, same channel)
+    let go_on = s(case, "after_refusal") == "continue";
     let mut rng = Rng::new(u(case, "cseed"));
     rep.begin_case(case);
     let r = catch(|| {
@@ -2334,14 +2631,15 @@ fn c12_send_client_case(case: &Value, env: &Env, rt: &tokio::runtime::Runtime, r
         let script = write_script(&script_kind, 1 + rng.usize(9000), total + 1000, &mut rng);
         let run = {
             let g = sc.read();
-            drive_send_buffer(&mut sb, &g, msgs, script)
+            drive_send_buffer(&mut sb, &g, msgs, script, !go_on)
         };
         if let Some(e) = run.error {
             return Err(format!("driver: {}", e));
         }
         let emitted = parse_emitted(&run.sink, &mut rx)?;
         let accepted_ids: Vec<u32> = run.writes.iter().zip(ids.iter()).filter(|(w, _)| w.is_ok()).map(|(_, id)| *id).collect();
-        Ok((emitted, ids, accepted_ids, run.writes.len()))
+        let results: Vec<Option<String>> = run.writes.iter().map(|w| w.as_ref().err().map(|e| status_name(*e))).collect();
+        Ok((emitted, ids, accepted_ids, results))
     });
     rep.sample(case.clone());
     match r {
@@ -2353,13 +2651,18 @@ fn c12_send_client_case(case: &Value, env: &Env, rt: &tokio::runtime::Runtime, r
             rep.case(&format!("send-client error {}", security));
             rep.violation(format!("sender-client|{}", normalize_msg(&e)), e, case.clone())
         }
-        Ok(Ok((emitted, ids, accepted_ids, writes))) => {
+        Ok(Ok((emitted, ids, accepted_ids, results))) => {
             let groups = emitted.iter().filter(|e| e.2 != MessageIsFinalType::Intermediate).count();
             let maxc = emitted.len().checked_div(groups.max(1)).unwrap_or(0);
+            let accepted: Vec<bool> = results.iter().map(|r| r.is_none()).collect();
+            let shape = refusal_shape(&accepted);
             rep.case(&format!(
                 "send-client {} sbs={} msgs={} chunks/msg~{} refused={} script={}",
-                security, sbs, ids.len().min(6), maxc.min(6), (accepted_ids.len() < writes) as u8, script_kind
+                security, sbs, ids.len().min(6), maxc.min(6), shape, script_kind
             ));
+            if shape == "then-accepted" {
+                rep.count("sender_client_histories_continued_after_a_refused_write", 1);
+            }
             rep.count("sender_client_chunks_emitted", emitted.len() as u64);
             rep.count("sender_client_messages_emitted", groups as u64);
             rep.count("sender_client_request_ids_allocated", ids.len() as u64);
@@ -2367,8 +2670,9 @@ fn c12_send_client_case(case: &Value, env: &Env, rt: &tokio::runtime::Runtime, r
             if uniq.len() != ids.len() {
                 rep.violation("sender-client|request-id-reused", format!("request ids handed out: {:?}", ids), case.clone());
             }
-            if let Some((sig, det)) = c12_sender_oracle("sender-client", &emitted, &accepted_ids) {
-                rep.violation(sig, det, case.clone());
+            if let Some((sig, det, at)) = c12_sender_oracle_at("sender-client", &emitted, &accepted_ids) {
+                let res: Vec<&str> = results.iter().map(|r| r.as_deref().unwrap_or("ok")).collect();
+                rep.violation(qualify_after_refusal(sig, at, &emitted, &results), format!("{}; results of the writes: {:?}", det, res), case.clone());
             }
         }
     }
@@ -2396,6 +2700,8 @@ fn c12_send_server_case(case: &Value, env: &Env, rep: &mut Report) {
     let mms = u(case, "max_message_size") as usize;
     let sizes: Vec<usize> = case["msgs"].as_array().map(|a| a.iter().filter_map(|x| x.as_u64().map(|x| x as usize)).collect()).unwrap_or_default();
     let flush_every = (u(case, "flush_every") as usize).max(1);
+    let mcc = u(case, "max_chunk_count") as usize;
+    let go_on = s(case, "after_refusal") == "continue";
     let mut rng = Rng::new(u(case, "cseed"));
     rep.begin_case(case);
     let r = catch(|| {
@@ -2408,7 +2714,7 @@ fn c12_send_server_case(case: &Value, env: &Env, rep: &mut Report) {
             rx.set_secure_channel_id(9);
         }
         // as the server's writing loop: MessageWriter::new(send_buffer_size, 0, 0) unless the case sets a limit
-        let mut w = MessageWriter::new(bufsize, mms, 0);
+        let mut w = MessageWriter::new(bufsize, mms, mcc);
         let mut wire = Vec::new();
         let ack = AcknowledgeMessage {
             message_header: MessageHeader { message_type: MessageType::Acknowledge, message_size: 28 },
@@ -2427,10 +2733,13 @@ fn c12_send_server_case(case: &Value, env: &Env, rep: &mut Report) {
             let req = 1000u32.wrapping_add((rng.next_u32() % 50_000) * 2 + 1).wrapping_add(i as u32 * 100_003);
             let values = 1 + sz / 2000;
             let res = w.write(req, read_response(i as u32, values, sz / values), &sc);
-            results.push(res.is_ok());
+            results.push(res.as_ref().err().map(|e| status_name(*e)));
             match res {
                 Ok(_) => accepted_ids.push(req),
-                Err(_) => break, // the writing loop ends the connection on a write error
+                // the server's writing loop ends the connection on a write error; a history marked
+                // "continue" keeps writing to the same writer instead
+                Err(_) if !go_on => break,
+                Err(_) => {}
             }
             if (i + 1) % flush_every == 0 {
                 wire.extend_from_slice(&w.bytes_to_write());
@@ -2451,13 +2760,19 @@ fn c12_send_server_case(case: &Value, env: &Env, rep: &mut Report) {
             rep.violation(format!("sender-server|{}", normalize_msg(&e)), e, case.clone())
         }
         Ok(Ok((emitted, accepted_ids, results))) => {
+            let accepted: Vec<bool> = results.iter().map(|r| r.is_none()).collect();
+            let shape = refusal_shape(&accepted);
             rep.case(&format!(
                 "send-server {} buf={} msgs={} refused={} flush={}",
-                security, bufsize, results.len().min(8), results.iter().any(|r| !r) as u8, flush_every.min(4)
+                security, bufsize, results.len().min(8), shape, flush_every.min(4)
             ));
             rep.count("sender_server_chunks_emitted", emitted.len() as u64);
-            if let Some((sig, det)) = c12_sender_oracle("sender-server", &emitted, &accepted_ids) {
-                rep.violation(sig, det, case.clone());
+            if shape == "then-accepted" {
+                rep.count("sender_server_histories_continued_after_a_refused_write", 1);
+            }
+            if let Some((sig, det, at)) = c12_sender_oracle_at("sender-server", &emitted, &accepted_ids) {
+                let res: Vec<&str> = results.iter().map(|r| r.as_deref().unwrap_or("ok")).collect();
+                rep.violation(qualify_after_refusal(sig, at, &emitted, &results), format!("{}; results of the writes: {:?}", det, res), case.clone());
             }
         }
     }
@@ -3021,6 +3336,43 @@ fn c12_recv_cases(args: &Args, part: &str, rng: &mut Rng) -> Vec<Value> {
 
 fn c12_sender_cases(args: &Args, rng: &mut Rng) -> Vec<Value> {
     let mut cases = Vec::new();
+    // Grid: histories that go on after a refused write. The refused request exceeds max_chunk_count while
+    // fitting max_message_size, or exceeds max_message_size; it is followed (and preceded) by accepted
+    // requests of one and of several chunks, and by a second refusal.
+    for security in ["none", "sign"] {
+        for sbs in [8196usize, 16384] {
+            for (mms, mcc) in [(0usize, 2usize), (0, 1), (6 * sbs, 2), (3 * sbs, 0), (3 * sbs, 4)] {
+                for script in ["all", "fixed"] {
+                    let big = 4 * sbs + 500; // 5 chunks, over either limit of every limit set above
+                    let two = if mcc == 1 { 200 } else { sbs + 2000 };
+                    let msgs = vec![300, two, big, 100, two, big, big, 50];
+                    cases.push(json!({"part": "send-client", "security": security, "send_buffer_size": sbs, "max_message_size": mms,
+                                      "max_chunk_count": mcc, "msgs": msgs, "script": script, "after_refusal": "continue",
+                                      "cseed": rng.next_u64() >> 12}));
+                }
+            }
+        }
+        for buf in [8196usize, 65536] {
+            // the writer never splits a message (chunk size 0), so only max_message_size can refuse
+            let mms = buf / 2;
+            let big = mms + 3000;
+            let big = if security == "sign" { big.min(buf - 700) } else { big };
+            let msgs = vec![100, 2000, big, 300, mms / 2, big, big, 10];
+            for mcc in [0usize, 1] {
+                cases.push(json!({"part": "send-server", "security": security, "buffer_size": buf, "max_message_size": mms,
+                                  "max_chunk_count": mcc, "msgs": msgs, "flush_every": 1 + rng.usize(3), "after_refusal": "continue",
+                                  "cseed": rng.next_u64() >> 12}));
+            }
+            // third way a write is refused: no limits, but the response does not fit the writer's buffer
+            // (unsecured channel only, see the note on secured histories below)
+            if security == "none" {
+                let msgs = vec![100, buf + 3000, 200, 3000, buf + 3000, buf + 3000, 50];
+                cases.push(json!({"part": "send-server", "security": security, "buffer_size": buf, "max_message_size": 0,
+                                  "max_chunk_count": 0, "msgs": msgs, "flush_every": 1 + rng.usize(3), "after_refusal": "continue",
+                                  "cseed": rng.next_u64() >> 12}));
+            }
+        }
+    }
     let n = if args.thorough() { 3000 } else { 300 };
     for i in 0..n {
         let security = if rng.bool() { "none" } else { "sign" };
@@ -3036,14 +3388,17 @@ fn c12_sender_cases(args: &Args, rng: &mut Rng) -> Vec<Value> {
                     _ => rng.usize(3000),
                 })
                 .collect();
-            let (mms, mcc) = match rng.below(5) {
+            let (mms, mcc) = match rng.below(6) {
                 0 => (3 * sbs, 0),
                 1 => (0, 1 + rng.usize(4)),
+                2 => (5 * sbs, 1 + rng.usize(3)),
                 _ => (0, 0),
             };
             let script = *rng.pick(&["all", "all", "random", "fixed"]);
+            // half of the histories end at the first refused write (the client's poll loop), half go on
+            let after = if rng.bool() { "stop" } else { "continue" };
             cases.push(json!({"part": "send-client", "security": security, "send_buffer_size": sbs, "max_message_size": mms,
-                              "max_chunk_count": mcc, "msgs": msgs, "script": script, "cseed": rng.next_u64() >> 12}));
+                              "max_chunk_count": mcc, "msgs": msgs, "script": script, "after_refusal": after, "cseed": rng.next_u64() >> 12}));
         } else {
             let buf = *rng.pick(&[8196usize, 65536, 65536, 100_000]);
             let nm = 1 + rng.usize(20);
@@ -3060,8 +3415,10 @@ fn c12_sender_cases(args: &Args, rng: &mut Rng) -> Vec<Value> {
             // panic (slice out of range) instead of returning an error. That is a send-path defect outside
             // this property (either way the connection ends there), so secured histories stay within the buffer.
             let msgs: Vec<usize> = if security == "sign" { msgs.into_iter().map(|m| m.min(buf - 700)).collect() } else { msgs };
-            cases.push(json!({"part": "send-server", "security": security, "buffer_size": buf, "max_message_size": mms, "msgs": msgs,
-                              "flush_every": 1 + rng.usize(3), "cseed": rng.next_u64() >> 12}));
+            let after = if rng.bool() { "stop" } else { "continue" };
+            let mcc = if rng.chance(1, 4) { 1 + rng.usize(2) } else { 0 };
+            cases.push(json!({"part": "send-server", "security": security, "buffer_size": buf, "max_message_size": mms, "max_chunk_count": mcc,
+                              "msgs": msgs, "flush_every": 1 + rng.usize(3), "after_refusal": after, "cseed": rng.next_u64() >> 12}));
         }
     }
     cases
